@@ -8,6 +8,7 @@
 #include "parsec/parsec_internal.h"
 #include "parsec/scheduling.h"
 #include "parsec/utils/debug.h"
+#include "parsec/mca/termdet/termdet.h"
 
 /**
  * A compound is a list of taskpool that need to be executed sequentially
@@ -65,6 +66,9 @@ parsec_compound_taskpool_startup( parsec_context_t *context,
         o->on_complete_data = compound;
     }
     parsec_context_add_taskpool(compound->ctx, compound->taskpool_array[0]);
+    /* The compound monitors its own termination (see the constructor): it becomes ready only
+     * now that its pending actions account for all the composed taskpools. */
+    compound->super.tdm.module->taskpool_ready(&compound->super);
     (void)startup_list;
 }
 
@@ -75,6 +79,9 @@ __parsec_compound_taskpool_destructor( parsec_compound_taskpool_t* compound )
     PARSEC_DEBUG_VERBOSE(30, parsec_debug_output,
                          "Compound taskpool destructor %p", compound);
     free(compound->taskpool_array);
+    if( NULL != compound->super.tdm.module ) {
+        compound->super.tdm.module->unmonitor_taskpool(&compound->super);
+    }
     if( NULL == compound->super.taskpool_name ) {
         free(compound->super.taskpool_name);
         compound->super.taskpool_name = NULL;
@@ -90,6 +97,11 @@ __parsec_compound_taskpool_constructor( parsec_compound_taskpool_t* compound )
     compound->completed_taskpools = 0;
     compound->nb_taskpools = 0;
     compound->super.startup_hook = parsec_compound_taskpool_startup;
+    /* Install the termination detector here: left to parsec_context_add_taskpool, the
+     * compound would be declared ready (and complete) before its startup hook has
+     * registered the composed taskpools as pending actions. */
+    parsec_termdet_open_module(&compound->super, "local");
+    compound->super.tdm.module->monitor_taskpool(&compound->super, parsec_taskpool_termination_detected);
 }
 
 PARSEC_OBJ_CLASS_INSTANCE(parsec_compound_taskpool_t, parsec_taskpool_t,
